@@ -310,6 +310,39 @@ var deepFrameCounts = []int{1000, 499000, 600000, 3000000, 9000000}
 
 func runC19Deep(c *worker.Ctx) {
 	res := c.Res
+	if c.T.Bool(1, 3) {
+		// a deep tree the parser produced: the round trip, not only totality
+		kind := deepKinds[c.T.Draw(len(deepKinds))]
+		n := []int{150, 600, 2500}[c.T.Draw(3)] // (the tree comparison names every node by its path: quadratic in the depth)
+		src := string(deepSource(kind, n, false))
+		res.Sig = fmt.Sprintf("deep-roundtrip|%s|%d", kind, n)
+		res.Nontrivial = true
+		v, err := parseSource(src)
+		if err != nil {
+			res.Probe("deep_source_not_accepted_by_the_parser:" + kind)
+			return
+		}
+		enc, err := codec.NewEncoder().Encodes(v.Statements)
+		if err != nil {
+			res.Violate("C19/roundtrip", "C19/roundtrip-error:deep:encode", fmt.Sprintf("%s nested %d levels does not encode: %v", kind, n, err))
+			return
+		}
+		enc = append([]byte{}, enc...)
+		got := decodeWith(enc, simio.Plan{Chunk: "all", Terminal: "eof"}, c)
+		switch {
+		case got.panicV != nil:
+			res.Violate("C19/decode-total", "C19/decode-panic:deep:"+got.stack+":"+panicClass(got.panicV), fmt.Sprintf("decoder panicked on the encoding of %s nested %d levels: %v", kind, n, got.panicV))
+		case got.err != nil:
+			res.Violate("C19/roundtrip", "C19/roundtrip-error:deep:decode", fmt.Sprintf("the encoding (%d bytes) of %s nested %d levels — which the parser accepts — does not decode: %v", len(enc), kind, n, got.err))
+		default:
+			if d := astcmp.Diff(v.Statements, got.stmts); d != "" {
+				res.Violate("C19/roundtrip", "C19/roundtrip:deep", fmt.Sprintf("%s nested %d levels decodes to a different tree: %s", kind, n, clipSrc(d)))
+			} else {
+				res.Probe("deep_tree_round_trip")
+			}
+		}
+		return
+	}
 	deepTemplates()
 	enc, at, ctx := deepExprEnc, deepExprAt, "expression"
 	if c.T.Bool(1, 3) {
